@@ -977,7 +977,7 @@ where
             match message[0] as char {
                 // Query
                 'Q' => {
-                    if query_router.query_parser_enabled() {
+                    if query_router.query_parser_enabled() || query_router.plugins_enabled() {
                         match query_router.parse(&message) {
                             Ok(ast) => {
                                 let plugin_result = query_router.execute_plugins(&ast).await;
@@ -996,7 +996,9 @@ where
                                     _ => (),
                                 };
 
-                                let _ = query_router.infer(&ast);
+                                if query_router.query_parser_enabled() {
+                                    let _ = query_router.infer(&ast);
+                                }
 
                                 initial_parsed_ast = Some(ast);
                             }
@@ -1019,7 +1021,7 @@ where
                 // to when we get the S message
                 // Parse
                 'P' => {
-                    if query_router.query_parser_enabled() {
+                    if query_router.query_parser_enabled() || query_router.plugins_enabled() {
                         match query_router.parse(&message) {
                             Ok(ast) => {
                                 if let Ok(output) = query_router.execute_plugins(&ast).await {
@@ -1029,7 +1031,9 @@ where
                                     }
                                 }
 
-                                let _ = query_router.infer(&ast);
+                                if query_router.query_parser_enabled() {
+                                    let _ = query_router.infer(&ast);
+                                }
                             }
                             Err(error) => {
                                 warn!(
@@ -1280,7 +1284,7 @@ where
                 match code {
                     // Query
                     'Q' => {
-                        if query_router.query_parser_enabled() {
+                        if query_router.query_parser_enabled() || query_router.plugins_enabled() {
                             // We don't want to parse again if we already parsed it as the initial message
                             let ast = match initial_parsed_ast {
                                 Some(_) => Some(initial_parsed_ast.take().unwrap()),
@@ -1357,7 +1361,7 @@ where
                     // Parse
                     // The query with placeholders is here, e.g. `SELECT * FROM users WHERE email = $1 AND active = $2`.
                     'P' => {
-                        if query_router.query_parser_enabled() {
+                        if query_router.query_parser_enabled() || query_router.plugins_enabled() {
                             if let Ok(ast) = query_router.parse(&message) {
                                 if let Ok(output) = query_router.execute_plugins(&ast).await {
                                     // A denied statement keeps the whole batch denied.
